@@ -5,16 +5,17 @@ package luaref
 // interpreter state needs no locking.
 
 type Coroutine struct {
-	fn       Value
-	status   string // suspended, running, normal, dead
-	started  bool
-	isMain   bool
-	toCo     chan coMsg // resume values / close / kill
-	fromCo   chan coMsg // yield values / result / error
-	frames   []frame
-	prot     int       // protected-call depth inside this coroutine
-	handlers []Value   // xpcall message handlers active in this coroutine (nil entries for pcall)
-	deathErr *LuaError // error that killed the coroutine
+	fn          Value
+	status      string // suspended, running, normal, dead
+	started     bool
+	isMain      bool
+	toCo        chan coMsg // resume values / close / kill
+	fromCo      chan coMsg // yield values / result / error
+	frames      []frame
+	prot        int       // protected-call depth inside this coroutine
+	handlers    []Value   // xpcall message handlers active in this coroutine (nil entries for pcall)
+	deathErr    *LuaError // error that killed the coroutine
+	errReported bool      // coroutine.close already returned that error
 }
 
 type coMsgKind int
@@ -227,14 +228,19 @@ func (in *Interp) installCoroutineLib() {
 			in.feat("close-suspended-started")
 			back := in.resume(co, coMsg{kind: msgClose})
 			if back.kind == msgError {
+				co.errReported = true
 				return []Value{false, back.err.Val}
 			}
 			return []Value{true}
 		case "dead":
 			if co.deathErr != nil {
-				err := co.deathErr
-				co.deathErr = nil
-				return []Value{false, err.Val}
+				if co.errReported {
+					// whether closing again a coroutine whose error was already
+					// reported by close returns true or false+error is not said
+					unspecified("second coroutine.close of a coroutine that ended with an error")
+				}
+				co.errReported = true
+				return []Value{false, co.deathErr.Val}
 			}
 			return []Value{true}
 		}
